@@ -2,6 +2,7 @@ import Driver.Cmd.Kevent
 import Driver.Cmd.Pairing
 import Driver.Cmd.Render
 import Driver.Cmd.Callstacks
+import Driver.Cmd.TraceCodes
 /-
   Line-protocol driver: one operation per line on stdin, one canonical answer per line on
   stdout.  Byte strings and texts travel as hex.  Imports no Mathlib (so it links).
@@ -10,7 +11,7 @@ import Driver.Cmd.Callstacks
 open Driver
 
 def allCommands : List (String × Cmd) :=
-  Driver.Kevent.commands ++ Driver.Pairing.commands ++ Driver.Render.commands ++ Driver.Callstacks.commands
+  Driver.Kevent.commands ++ Driver.Pairing.commands ++ Driver.Render.commands ++ Driver.Callstacks.commands ++ Driver.TraceCodes.commands
 
 def dispatch (line : String) : String :=
   match (line.trimAscii.toString.splitOn " ").filter (· ≠ "") with
